@@ -107,8 +107,10 @@ def histories(pa, rng, count, length):
         tot2 = -1
         if rng.random() < 0.4:
             tot2 = rng.randint(0, 200)
-        obj2 = pa.Alignment(obj1.unitary_alignments, c if att[1] else None,
-                            disorder=None if tot2 < 0 else tot2 / (c2n * SCALE))
+        # the second object is a SoftAlignment a third of the time (its compute_disorder is code of its own)
+        cls2 = pa.alignment.SoftAlignment if rng.random() < 0.35 else pa.Alignment
+        obj2 = cls2(obj1.unitary_alignments, c if att[1] else None,
+                    disorder=None if tot2 < 0 else tot2 / (c2n * SCALE))
         if obj2.unitary_alignments is obj1.unitary_alignments:
             pass                                                 # (the constructor copies the list; the objects are shared)
         objs = {1: obj1, 2: obj2}
@@ -251,7 +253,8 @@ def l2(rep, pa, rng, quick):
             if v >= 0:
                 ua.disorder = float(v)
         objs = {1: pa.Alignment(uas, None, disorder=val(src["tot"][0]))}
-        objs[2] = pa.Alignment(objs[1].unitary_alignments, c, disorder=val(src["tot"][1]))
+        cls2 = pa.alignment.SoftAlignment if rng.random() < 0.35 else pa.Alignment       # SoftAlignment.compute_disorder is code of its own
+        objs[2] = cls2(objs[1].unitary_alignments, c, disorder=val(src["tot"][1]))
         ualist = objs[1].unitary_alignments
         out, ret = "ok", None
         try:
